@@ -5,13 +5,15 @@
     ast:[node],                                        the parsed restriction tree, projected
     rtoks:[tok],                                       str(depset), split on white space
     re_raised, re_ast:[node], eq,                      DepSet.parse(str(depset)); pkgcore's ==
-    evals:[{use:[flag], ast:[node]}]}                  evaluate_depset(U) for every U
+    evals:[{use:[flag], ast:[node]}],                  evaluate_depset(U) for every U
+    evals2: same, after node_conds / known_conditionals / has_conditionals have been read}
    node = {t,v,neg,ren,ch}.  Clauses:
      Rejects / Accepts        the verdict of the grammar (error / ok) against the parser
      Parse_wellformed, Parse_leaves, Parse_meaning     parsed tree vs Parse(toks)
      Render_parses, Render_meaning                     str() is grammatical and means the tree
      RoundTrip_reparse, RoundTrip_equal                parse(str(d)) == d
-     Eval_condfree, Eval_leaves, Eval_meaning          evaluate_depset(U) vs the tree under U  *)
+     Eval_condfree, Eval_leaves, Eval_meaning          evaluate_depset(U) vs the tree under U
+     EvalAfterInspection_*                             the same for evals2                      *)
 EXTENDS DepSet, TraceLib
 VARIABLE l
 
@@ -36,14 +38,16 @@ JudgeRender(e, F) ==
   \cup If(e.re_raised, "RoundTrip_reparse", None)
   \cup If(~e.re_raised /\ (AsSet(e.re_ast) # AsSet(e.ast) \/ ~e.eq), "RoundTrip_equal", None)
 
-JudgeEvals(e) ==
-  UNION {LET ev == e.evals[k] IN
-         If(HasCond(ev.ast), "Eval_condfree", ev.use)
-         \cup If(~(Leaves(ev.ast) \subseteq Leaves(e.ast)), "Eval_leaves", ev.use)
+JudgeEvalSeq(e, evs, tag) ==
+  UNION {LET ev == evs[k] IN
+         If(HasCond(ev.ast), tag \o "_condfree", ev.use)
+         \cup If(~(Leaves(ev.ast) \subseteq Leaves(e.ast)), tag \o "_leaves", ev.use)
          \cup If(WellFormed(ev.ast) /\ ~EvaluatedMeaning(e.ast, AsSet(ev.use), ev.ast),
-                 "Eval_meaning", ev.use)
-         \cup If(~WellFormed(ev.ast), "Eval_wellformed", ev.use)
-         : k \in DOMAIN e.evals}
+                 tag \o "_meaning", ev.use)
+         \cup If(~WellFormed(ev.ast), tag \o "_wellformed", ev.use)
+         : k \in DOMAIN evs}
+\* evals: right after parsing; evals2: after node_conds / known_conditionals / has_conditionals were read
+JudgeEvals(e) == JudgeEvalSeq(e, e.evals, "Eval") \cup JudgeEvalSeq(e, e.evals2, "EvalAfterInspection")
 
 Judge(e) ==
   LET F == FlavourOf(e.fl)
